@@ -6,7 +6,7 @@
 (* together with an output shape.  The same gather is applied to values, to  *)
 (* dual numbers and to *index maps* (sequences of buffer cells), which is    *)
 (* how views are modelled without any stride reasoning (DESIGN C04).         *)
-EXTENDS Integers, Sequences, FiniteSets
+EXTENDS Integers, Sequences, FiniteSets, TLC
 
 \* ---------------------------------------------------------------- basics
 SeqProd(s) == LET RECURSIVE P(_)
@@ -58,7 +58,7 @@ BGather(src, out) ==
         LET idx == Unravel(p, out)
         IN 1 + SeqSum([i \in 1..n |-> (IF a[i] = 1 THEN 0 ELSE idx[i]) * sa[i]])]
 
-Gather(xs, g) == [k \in 1..Len(g) |-> xs[g[k]]]
+Gather(xs, g) == TLCEval([k \in 1..Len(g) |-> xs[g[k]]])
 
 \* ---------------------------------------------------------------- reshape-like (identity gathers)
 \* resolve one -1 in a requested shape
